@@ -129,7 +129,15 @@ def cmdMcHistory (j : Json) : R Json := do
     let oj : Json := match out with
       | .ok => obj [("out", "ok")]
       | .rejected => obj [("out", "rejected")]
-      | .pair v e => obj [("out", "pair"), ("value", putFB v), ("error", putFB e)]
+      | .pair v e =>
+        let walk : Json := match s.strategy, s.sim with
+          | .mode, some id =>
+            let (imax, k) := ModeWalk.modeWalk (w.hist id).1 s.conf
+            let len := (w.hist id).1.length
+            obj [("imax", (imax : Json)), ("k", (k : Json)),
+              ("hit_end", Json.bool (decide (imax < k) || decide (len ≤ imax + k)))]
+          | _, _ => Json.null
+        obj [("out", "pair"), ("value", putFB v), ("error", putFB e), ("walk", walk)]
       | .sampleSet id => obj [("out", "samples"), ("id", (id : Json))]
     let st : Json := obj [("size", (s.size : Json)), ("strategy", (s.strategy.name : Json)),
       ("conf", putF s.conf.v), ("hasRange", Json.bool s.range.isSome),
